@@ -375,6 +375,8 @@ func (m *Machine) lenOf(v Val) *Term {
 	case *Term:
 		if x.Sort == SBytes {
 			m.E.D.Fun("blen", []Sort{SBytes}, SInt)
+			m.E.D.Axiom("(forall ((b Bytes)) (! (>= (blen b) 0) :pattern ((blen b))))")
+			m.E.D.Axiom("(= (blen bnil) 0)")
 			return App(SInt, "blen", x)
 		}
 		if x.Sort == SStr {
